@@ -290,3 +290,87 @@ Proof.
   exists us. split; [| cbn [app]; rewrite Heq; reflexivity].
   destruct (wf_collect us cps Hwf) as [_ Hd]. rewrite Hd. exact Hwf.
 Qed.
+
+(* ---------------------------------------------------------------- explicit rejections *)
+
+Lemma collect_prefix : forall pre cps x, wf_units pre cps ->
+  collect_units (flat_map be_bytes pre ++ x) = res_cons pre (collect_units x).
+Proof.
+  intros pre cps x H. induction H as [| u us cps Hu _ IH | h l us cps H1 H2 H3 H4 _ IH].
+  - cbn [flat_map app]. destruct (collect_units x); reflexivity.
+  - cbn [flat_map]. rewrite <- app_assoc. rewrite collect_bmp by lia. rewrite IH.
+    destruct (collect_units x); reflexivity.
+  - cbn [flat_map]. rewrite <- !app_assoc. rewrite collect_pair by lia. rewrite IH.
+    destruct (collect_units x); reflexivity.
+Qed.
+
+(* a low surrogate where a character must start *)
+Lemma collect_lone_low : forall u x, 0xDC00 <= u -> u < 0xE000 -> collect_units (be_bytes u ++ x) = Err.
+Proof.
+  intros u x H1 H2. unfold be_bytes. cbn [app collect_units]. rewrite be16_be_bytes by lia.
+  replace ((u <=? 55295) || (57344 <=? u) && (u <=? 65535)) with false by (symmetry; lia).
+  destruct x as [| b2 [| b3 x']]; try reflexivity.
+  replace ((56320 <=? u) && (u <=? 57343)) with true by (symmetry; lia). reflexivity.
+Qed.
+
+(* a high surrogate at the end of the string *)
+Lemma collect_high_at_end : forall h, 0xD800 <= h -> h < 0xDC00 -> collect_units (be_bytes h) = Err.
+Proof.
+  intros h H1 H2. unfold be_bytes. cbn [collect_units]. rewrite be16_be_bytes by lia.
+  replace ((h <=? 55295) || (57344 <=? h) && (h <=? 65535)) with false by (symmetry; lia). reflexivity.
+Qed.
+
+(* a high surrogate followed by a unit that is not a low surrogate *)
+Lemma collect_high_unpaired : forall h v x, 0xD800 <= h -> h < 0xDC00 -> v < 65536 ->
+  (v < 0xDC00 \/ 0xE000 <= v) -> collect_units (be_bytes h ++ be_bytes v ++ x) = Err.
+Proof.
+  intros h v x H1 H2 Hv Hn. unfold be_bytes. cbn [app collect_units]. rewrite !be16_be_bytes by lia.
+  replace ((h <=? 55295) || (57344 <=? h) && (h <=? 65535)) with false by (symmetry; lia).
+  replace ((56320 <=? h) && (h <=? 57343)) with false by (symmetry; lia).
+  replace ((v <? 56320) || (57343 <? v)) with true by (symmetry; lia). reflexivity.
+Qed.
+
+Lemma decode_collect_err : forall x, collect_units x = Err -> decodeUTF16Runes (0xFE :: 0xFF :: x) = Err.
+Proof.
+  intros x H. unfold decodeUTF16Runes. destruct (IsUTF16BE (254 :: 255 :: x)); [| reflexivity].
+  cbn [negb skipn]. rewrite H. reflexivity.
+Qed.
+
+Lemma decode_rejects_lone_low : forall pre cps u x, wf_units pre cps -> 0xDC00 <= u -> u < 0xE000 ->
+  decodeUTF16Runes ([0xFE; 0xFF] ++ flat_map be_bytes pre ++ be_bytes u ++ x) = Err.
+Proof.
+  intros pre cps u x Hwf H1 H2. cbn [app]. apply decode_collect_err.
+  rewrite (collect_prefix pre cps _ Hwf), collect_lone_low by lia. reflexivity.
+Qed.
+
+Lemma decode_rejects_high_at_end : forall pre cps h, wf_units pre cps -> 0xD800 <= h -> h < 0xDC00 ->
+  decodeUTF16Runes ([0xFE; 0xFF] ++ flat_map be_bytes pre ++ be_bytes h) = Err.
+Proof.
+  intros pre cps h Hwf H1 H2. cbn [app]. apply decode_collect_err.
+  rewrite (collect_prefix pre cps _ Hwf), collect_high_at_end by lia. reflexivity.
+Qed.
+
+Lemma decode_rejects_high_unpaired : forall pre cps h v x, wf_units pre cps ->
+  0xD800 <= h -> h < 0xDC00 -> v < 65536 -> (v < 0xDC00 \/ 0xE000 <= v) ->
+  decodeUTF16Runes ([0xFE; 0xFF] ++ flat_map be_bytes pre ++ be_bytes h ++ be_bytes v ++ x) = Err.
+Proof.
+  intros pre cps h v x Hwf H1 H2 Hv Hn. cbn [app]. apply decode_collect_err.
+  rewrite (collect_prefix pre cps _ Hwf), collect_high_unpaired by lia. reflexivity.
+Qed.
+
+Lemma decode_rejects_odd_length : forall b, Nat.even (length b) = false -> decodeUTF16Runes b = Err.
+Proof.
+  intros b H. unfold decodeUTF16Runes, IsUTF16BE. destruct b as [| b0 [| b1 rest]]; try reflexivity.
+  rewrite H. reflexivity.
+Qed.
+
+Lemma decode_rejects_missing_bom : forall b0 b1 rest, (b0 <> 0xFE \/ b1 <> 0xFF) ->
+  decodeUTF16Runes (b0 :: b1 :: rest) = Err.
+Proof.
+  intros b0 b1 rest H. unfold decodeUTF16Runes, IsUTF16BE.
+  replace (Nat.even (length (b0 :: b1 :: rest)) && (b0 =? 254) && (b1 =? 255)) with false; [reflexivity |].
+  symmetry. destruct (Nat.even (length (b0 :: b1 :: rest))); [| reflexivity]. cbn [andb]. lia.
+Qed.
+
+Lemma decode_rejects_short : forall b, (length b < 2)%nat -> decodeUTF16Runes b = Err.
+Proof. intros b H. destruct b as [| b0 [| b1 rest]]; try reflexivity. cbn in H. lia. Qed.
